@@ -466,6 +466,49 @@ pub fn run(ctx: &Ctx) -> Outcome {
     if out.failure.is_some() {
         return out;
     }
+    // rules whose two events are both thrown into the neighbouring year, behind a table whose last transition lies in the first / last
+    // days of a year: the zone selecting the type the rule prescribes there is well formed, its twin is not
+    {
+        let rules: Vec<crate::model::MRule> = crate::orule::both_edge_rules().into_iter().step_by(7).collect();
+        let rr = &rules;
+        let n = 16u64;
+        let rs = par_shards(n, |shard, st| {
+            for r in rr.iter().skip(shard as usize).step_by(n as usize) {
+                let class = crate::orule::classify(r);
+                if !class.interleaves() {
+                    continue;
+                }
+                for y in [2001i64, 2003] {
+                    let jan1 = crate::cal::days_from_civil(y, 1, 1) * 86400;
+                    for u in [jan1 + 3600, jan1 + 36 * 3600, jan1 + 3 * 86400 + 7, jan1 + 6 * 86400, jan1 - 36 * 3600, jan1 - 3 * 86400 - 7, jan1 - 6 * 86400] {
+                        // not on (or next to) an event of the rule itself: the prescription is unambiguous
+                        if (y - 2..=y + 1).any(|yy| (u - r.s(yy)).abs() <= 1 || (u - r.e(yy)).abs() <= 1) {
+                            continue;
+                        }
+                        let right = if crate::orule::is_dst(r, class, u) { 1usize } else { 0 };
+                        for good in [true, false] {
+                            let idx_last = if good { right } else { 1 - right };
+                            if !good && r.std == r.dst {
+                                continue;
+                            }
+                            let z = MZone { trans: vec![(u - 40_000_000, 1 - idx_last), (u, idx_last)], types: vec![r.std.clone(), r.dst.clone()], leaps: vec![], trailer: MTrailer::Alt(r.clone()) };
+                            check_enum("tuple", &z, st, |z, st| {
+                                let res = check_tuple(z, good, st);
+                                st.nontrivial_exact(1);
+                                st.class("year_edge_rule_behind_table");
+                                res
+                            })?;
+                        }
+                    }
+                }
+            }
+            Ok(())
+        });
+        out.absorb_all(rs);
+        if out.failure.is_some() {
+            return out;
+        }
+    }
     // LocalTimeType::new
     let rs = par_shards(1, |_, st| {
         // every length up to 1100 bytes (beyond any one-byte or two-byte length counter's wrap), then a few much longer ones
@@ -482,6 +525,17 @@ pub fn run(ctx: &Ctx) -> Outcome {
         for off in [0, 1, -1, 3600, i32::MIN, i32::MIN + 1, i32::MAX] {
             st.eval(1);
             check_short(off).map_err(|m| Failure::new("ltt-short", m, json!(off)))?;
+        }
+        // every pair (first byte, last byte) around a valid core, for a legal and two illegal total lengths
+        for len in [5usize, 8, 9] {
+            for a in 0..=255u8 {
+                for b in 0..=255u8 {
+                    let mut n = vec![b'x'; len];
+                    n[0] = a;
+                    n[len - 1] = b;
+                    check_enum("ltt", &(7, Some(n)), st, |c, st| check_ltt(c.0, c.1.as_deref(), st))?;
+                }
+            }
         }
         for len in 3..=7usize {
             for pos in 0..len {
